@@ -6,7 +6,7 @@ PROP = "C01"
 RUNNER = "c01"
 ASSUME = [
     "types are the constructions TLC enumerates from specs/GoTypes.tla (30 leaves; quick: up to 2 of 20 constructor steps; thorough: up "
-    "to 3 of those 20 plus up to 2 of all 41); values come from four deterministic modes (zero, empty, typical, boundary) plus seeded random modes",
+    "to 3 of 8 of them plus up to 2 of all 50); values come from four deterministic modes (zero, empty, typical, boundary) plus seeded random modes",
     "oracle: encoding/json on the same value (same error/no-error, same bytes after canonicalising \\b, \\f and zero-padded exponents)",
     "a divergence is minimised structurally; the minimal construction names the finding, the original cases are its extent",
 ]
